@@ -43,7 +43,7 @@ import (
 )
 
 type xhop struct {
-	K      string `json:"k"` // put-slc put-bal put-ref estimates evidence stored pad err endblock
+	K      string `json:"k"` // put-slc put-usc put-bal put-ref estimates evidence stored pad err endblock
 	Chain  int    `json:"chain,omitempty"`
 	ID     uint64 `json:"id,omitempty"`
 	V      int    `json:"v,omitempty"`
@@ -253,6 +253,19 @@ func (r *arunner) do(h xhop) {
 			r.run.Violate("C09:put-panic", "AddSmartContractExecutionToConsensus panicked: "+what, r.replay(h))
 		}
 		r.register(before, "slc", h.Chain, false)
+	case "put-usc":
+		before := r.queued()
+		out, what := guard(func() error {
+			_, err := e.f.EvmKeeper.AddUploadUserSmartContractToConsensus(ctx, chains[h.Chain], "", &evmtypes.UploadUserSmartContract{
+				Bytecode: []byte{0x60, 0x80, byte(len(r.order))}, DeployerAddress: "0x51eca2efb15afacc612278c71f5edb35986f172f", Deadline: 1337,
+				SenderAddress: []byte("abcdefghijabcdefghij"), BlockHeight: e.height, Id: uint64(1 + len(r.order)), Retries: 2,
+			})
+			return err
+		})
+		if out == 2 {
+			r.run.Violate("C09:put-panic", "AddUploadUserSmartContractToConsensus panicked: "+what, r.replay(h))
+		}
+		r.register(before, "slc", h.Chain, false)
 	case "put-bal":
 		before := r.queued()
 		if err := e.f.EvmKeeper.CheckExternalBalancesForChain(ctx, chains[h.Chain]); err != nil {
@@ -360,7 +373,8 @@ func (r *arunner) do(h xhop) {
 			if m == nil || m.fees || m.kind != "slc" {
 				continue
 			}
-			if em, err := libmsg.ToEvmMessage(qm, e.f.Codec); err == nil && em.GetSubmitLogicCall() != nil && em.GetSubmitLogicCall().Fees != nil {
+			if em, err := libmsg.ToEvmMessage(qm, e.f.Codec); err == nil && ((em.GetSubmitLogicCall() != nil && em.GetSubmitLogicCall().Fees != nil) ||
+				(em.GetUploadUserSmartContract() != nil && em.GetUploadUserSmartContract().Fees != nil)) {
 				m.fees = true
 				r.terms = append(r.terms, fmt.Sprintf("C09.XElect %d", id))
 			}
@@ -507,7 +521,7 @@ func genAttestHistory(run *emit.Run, nv int) []xhop {
 		ci := r.Intn(2)
 		switch k := r.Intn(10); {
 		case k < 6:
-			ops = append(ops, xhop{K: "put-slc", Chain: ci})
+			ops = append(ops, xhop{K: map[bool]string{true: "put-usc", false: "put-slc"}[k == 5], Chain: ci})
 			live = append(live, qm{nextID, "slc"})
 		case k < 8:
 			ops = append(ops, xhop{K: "put-bal", Chain: ci})
